@@ -13,7 +13,7 @@ struct EmcyRun : NodeEnv {
     uint8_t reg() { uint8_t r = 0; for (size_t i = 0; i < act.size(); i++) if (act[i]) { r |= 1; if (tbl[i].first) r |= (uint8_t)(1u << tbl[i].first); } return r; }
     int cnt() { int n = 0; for (bool b : act) n += b; return n; }
     void build() {
-        nodeId = (uint8_t)plan.c("nodeid", 1); if (nodeId < 1 || nodeId > 127) nodeId = 1; freq = 1000; depth = (int)plan.c("depth", 4); if (depth < 1) depth = 1; if (depth > 8) depth = 8;
+        nodeId = (uint8_t)plan.c("nodeid", 1); if (nodeId < 1 || nodeId > 127) nodeId = 1; freq = 1000; depth = (int)plan.c("depth", 4); if (depth < 1) depth = 1; if (depth > 254) depth = 254; if (depth > 8) cov.hit("history-deeper-than-128-entries", depth > 128 ? 1 : 0);
         for (auto &o : plan.ops) if (o.k == "err" && (int)tbl.size() < CO_EMCY_N) tbl.push_back({(uint8_t)(o.arg(0) & 7), (uint16_t)o.arg(1)});
         if (tbl.empty()) tbl.push_back({1, 0x2000});
         act.assign(tbl.size(), false);
@@ -45,7 +45,7 @@ struct EmcyRun : NodeEnv {
         const std::string &k = o.k; if (k == "err") return;
         if (k == "cycles") {   // hundreds of activations without a history clear in between: every set / clear judged on its own, the history read back at the end (8 bit counters wrap at 256)
             int64_t cnt = std::min<int64_t>(o.arg(1), 600); cov.hit("long-run-of-activations"); if (cnt >= 256) { cov.hit("run-of-256-or-more-activations"); nontrivial = true; }
-            for (int64_t i = 0; i < cnt && v.ok; i++) { Op st("set", {o.arg(0), (int64_t)(i & 1), (int64_t)(i * 7 & 0xFFFF)}); st.b = {(uint8_t)i, 2, 3, 4, 5}; op(st); if (v.ok) op(Op("clr", {o.arg(0)})); if (v.ok && (i % 64 == 63 || i + 1 == cnt)) for (int q = 0; q <= depth && v.ok; q++) op(Op("rd1003", {(int64_t)q})); }
+            for (int64_t i = 0; i < cnt && v.ok; i++) { Op st("set", {o.arg(0), (int64_t)(i & 1), (int64_t)(i * 7 & 0xFFFF)}); st.b = {(uint8_t)i, 2, 3, 4, 5}; op(st); if (v.ok) op(Op("clr", {o.arg(0)})); if (v.ok && (i % 64 == 63 || i + 1 == cnt)) for (int q = 0; q <= depth && v.ok; q += (depth > 16 && i + 1 != cnt) ? 17 : 1) op(Op("rd1003", {(int64_t)q})); }
             return; }
         size_t mk = w.mark(); std::vector<Frame> exp; bool frames = true;
         if (k == "set") {
@@ -87,7 +87,7 @@ struct EmcyRun : NodeEnv {
 };
 
 Plan gen_emcy(Rng &r, bool thorough) {
-    Plan p; p.cfg["nodeid"] = r.pick<int64_t>({1, 5, 127}); p.cfg["depth"] = r.range(1, 8); p.cfg["cobvalid"] = r.chance(5, 6);
+    Plan p; p.cfg["nodeid"] = r.pick<int64_t>({1, 5, 127}); bool deep = r.chance(1, 25); p.cfg["depth"] = deep ? r.pick<int64_t>({129, 200, 254, 128}) : r.range(1, 8);   // CiA 301 allows up to 254 entries p.cfg["cobvalid"] = r.chance(5, 6);
     int ne = (int)r.range(1, 6); bool shared = r.chance(1, 2);
     for (int i = 0; i < ne; i++) p.ops.push_back(Op("err", {shared ? r.pick<int64_t>({1, 1, 2, 0, 4}) : r.range(0, 7), (int64_t)(0x1000 * (1 + r.below(15)) + r.below(256))}));
     int n = (int)r.range(3, thorough ? 60 : 30);
@@ -98,12 +98,13 @@ Plan gen_emcy(Rng &r, bool thorough) {
         else if (c == 13) p.ops.push_back(r.chance(1, 4) ? Op("restart") : Op("reset", {(int64_t)r.below(2)}));
         else if (c == 14) p.ops.push_back(Op("nmt", {r.pick<int64_t>({1, 2, 128, 128, 129, 130})}));
         else if (c == 15) p.ops.push_back(Op("rd1001"));
-        else if (c < 20) p.ops.push_back(Op("rd1003", {(int64_t)r.below(10)}));
+        else if (c < 20) p.ops.push_back(Op("rd1003", {deep ? (int64_t)r.below(256) : (int64_t)r.below(10)}));
         else if (c == 20) p.ops.push_back(Op("wr1003", {r.chance(1, 2) ? 0 : r.range(1, 255)}));
         else if (c < 23) p.ops.push_back(Op("w1014", {(int64_t)r.below(2)}));
         else p.ops.push_back(Op("sendfail", {r.range(1, 2)}));
         if (r.chance(1, 300)) p.ops.push_back(Op("cycles", {(int64_t)r.below((uint32_t)ne), r.pick<int64_t>({130, 255, 256, 257, 300, 520})}));
     }
+    if (deep) p.ops.push_back(Op("cycles", {(int64_t)r.below((uint32_t)ne), r.pick<int64_t>({300, 520, 600})}));   // the ring wraps, then every sub-index is read back
     return p;
 }
 Reg r15({"emcy", "C15", gen_emcy, [](const Plan &p, Cov &c, bool vb) { EmcyRun x(p, c, vb); return x.run(); }, nullptr, nullptr});
